@@ -10,7 +10,7 @@ import re
 from harness.common import (dec_res, enc_val, ensure_impl_on_path, known_predicate, run_impl, same)
 
 GEN_MODULES = ['excelutil']
-EXTRA_TARGETS = ['Refuted/C15_total.vo', 'Refuted/C15_partition.vo']
+EXTRA_TARGETS = ['Refuted/C15_error_cells.vo', 'Refuted/C15_partition.vo']
 
 Fr = fractions.Fraction
 ERRORS = ['#NULL!', '#DIV/0!', '#VALUE!', '#REF!', '#NAME?', '#NUM!', '#N/A']
@@ -234,14 +234,6 @@ def python_only_number(v):
         return True
     except ValueError:
         return False
-
-
-@known_predicate('C15-wildcard-nontext-cell')
-def _wild_nontext(case):
-    """A ?/* criterion over a range holding a number or a logical: x.lower() raises."""
-    rs, cs = _pairs(case)
-    return any(_is_wild_crit(c) and any(x is not None and not isinstance(x, str) for x in _cells(r))
-               for r, c in zip(rs, cs))
 
 
 @known_predicate('C15-ne-wildcard-literal')
